@@ -33,6 +33,14 @@ CHECKS["C20"] = (MC,
     "trusted: TLC, the transcription of the documentation into Adjust.tla; listen values are only compared between CLI and keyword forms; real sockets are created (unbound) for the socket-list kinds",
     "TLC-enumerated configuration space of a TLA+ specification replayed on the implementation (spec -> code), TLC set comparison of option tables")
 
+_px = "trusted: TLC, the element vocabulary and its ok/bad/bads/free classification in Proxy.tla (the specification's reading of the statement), the synchronous driver (real server object, middleware installed by server.py, fake sockets)"
+CHECKS["C15"] = (MC,
+    "Proxy.tla holds the vocabulary of header elements and the clauses. For every (server configuration, peer that is not the trusted proxy - incl. prefix/substring/superstring addresses and no proxy configured -, assignment of the six headers built from the vocabulary: well-formed, malformed, hostile) the real server is run with and without the proxy headers (requests of the real proxy interleaved on the same server object) and TLC evaluates non-interference on the seven metadata keys and clearing. Bounded enumeration (hop lists exhaustive to length 1-2 per kind, seeded beyond), judged case by case by TLC.",
+    "DESIGN.md 3.10, 6 (C15)", _px, "TLA+ specification (Proxy.tla) evaluated by TLC on every executed case (batch trace validation), relational oracle: run with vs. without headers")
+CHECKS["C16"] = (MC,
+    "For every (trusted_proxy_count 1..4, allowed subset of trusted_proxy_headers, header assignment from the vocabulary of Proxy.tla incl. degenerate elements such as ':80', '[', '\"') the real server is run three times (as generated / without proxy headers / hop lists cut to the trusted suffix and untrusted kinds removed); TLC evaluates: never an exception or 500, 400 for uninterpretable headers, metadata taken from exactly the count-th hop from the right, left hops and untrusted kinds neither influence the metadata nor reach the application.",
+    "DESIGN.md 3.10, 6 (C16)", _px, "TLA+ specification (Proxy.tla) evaluated by TLC on every executed case; relational oracle: full vs. cut-to-trusted-hops run")
+
 EXP = "exploration"
 _chan_note = "trusted: TLC (judging), the simulated kernel and scheduler shims (Lock/Condition/select/poll/pipe semantics), the independent response lexer wv/httpclient.py; schedule coverage on the code is bounded (all schedules with <= 1 pre-emption up to a limit, sampled beyond)"
 _chan_tech = "deterministic schedule exploration of the real server (bounded DFS + PCT/pre-emption sampling) with TLC trace validation against the TLA+ property monitor Pipeline.tla"
